@@ -35,6 +35,19 @@ def apply_edit(b, edit):
         m = b.held["m1"] / 2 + b.held["ty1"] ** 2 / 4
         pep.set_performance_metric(m)
         b.held["m_tsample"] = m
+    elif edit == "step":         # the user continues the method by one step after a solve and looks at the new iterate
+        kind = pepsolve.class_table()[b.prog["cls"]][0]
+        from PEPit.primitive_steps import proximal_step
+        if kind == "fun" and b.h is None:
+            xn = x - pepsolve.GAMMA * b.f.gradient(x)
+        elif kind in ("lin", "qg"):
+            xn = x - pepsolve.GAMMA * b.f.gradient(x)
+        else:
+            xn, _, _ = proximal_step(x, b.F, pepsolve.GAMMA)
+        m = (xn - x0) ** 2 / 4 + b.held["m1"] / 2
+        pep.set_performance_metric(m)
+        b.held["x_step"] = xn
+        b.held["m_step"] = m
     elif edit == "fcons":        # the function gets its FIRST own constraint after a solve; it caps the metric
         c = (b.held["m1"] <= 1 / 64)
         b.f.add_constraint(c)
@@ -140,6 +153,12 @@ def run(item):
             where = [f for f in tb if "/PEPit/" in f.filename]
             crash = "%s@%s" % (type(e).__name__, (os.path.basename(where[-1].filename) + ":" + where[-1].name) if where else "?")
             out["raise_msg"] = str(e)[:200]
+            statuses = [ev["status"] for ev in pepsolve.LOG if ev["ev"] == "solve"]
+            if any(st not in ("optimal", "prosta.prim_and_dual_feas") for st in statuses) or "solution undefined" in str(e):
+                # the numerical solver itself gave up in one of the internal solves (e.g. the heuristic problem with a
+                # zero tolerance): what PEPit does next is not judged
+                out["note"] = "inconclusive:solver-gave-up(%s)" % ",".join(statuses)
+                break
             try:
                 obs = pepsolve.observe(b.pep, None, b.held, with_native=False, user_decl=b.user_decl)
             except Exception:
